@@ -11,7 +11,7 @@ EXPLANATION = ('Table-agreement, TLV-table and boundary rules over ln::wire, ln:
 	'Encode::TYPE of the payload it decodes and all TYPE values distinct; unknown types go to the custom reader and otherwise to Message::Unknown, which the peer handler disconnects on iff the '
 	'type is even; every hand-written TLV writer table in ln::msgs is read by its reader, macro-generated codecs have increasing types; every TLV read loop reachable for wire messages '
 	'rejects non-increasing types and unknown even types, skips unknown odd ones, drains the record through the FixedLengthReader and rejects trailing bytes; BigSize / CollectionLength '
-	'writer widths equal the reader\'s minimality thresholds. Decides these agreements for all variants and decoders; value-level round-trip equality and panic freedom are not decided.')
+	'writer widths equal the reader\'s minimality thresholds. Also: u16 length prefixes in front of raw bytes are the byte length of exactly those bytes; the node_announcement address reader advances its consumed-byte counter only by the size of a decoded address. Decides these agreements for all variants and decoders; value-level round-trip equality and panic freedom are not decided.')
 ASSUMPTIONS = ['primitive Readable/Writeable impls for integers, keys and signatures are inverse to each other', 'custom message readers honour their contract']
 
 def _variant_payload_table(F, fn, callee_suffix):
